@@ -10,8 +10,9 @@ PyVC like repository code (path `ABS:<site-packages>/bitsets/...`, linkage check
   MemberBits.members                            the labels at the positions `_indexes()` yields
   Series.bools / index_sets / frombools / frommembers     element-wise maps
   integers.reinverted                           the natural with bit (r-1-k) = not bit(n, k) for k < r  (the tie-break part of the shortlex key)
-Still assumed (string / C level): bin(x).count('1') = number of set bits; indexes_optimized = indexes (goes through bin());
-sum of pairwise distinct atoms = their union (arithmetic; Lean: lemmas/Bits.lean sum_two_pow_testBit); itertools.compress, filter, map.
+Through the text bin(x): contracts/bitsets_bin.py (count, indexes_optimized, bits; the first component of the shortlex / longlex keys below).
+Still assumed (C level): itertools.compress, filter, map; that CPython's bin / format / slicing / str.count compute the definitions of lemmas/BitsBin.lean
+(validated by pyvc/bintext.py, never proved).  Sum of pairwise distinct atoms = their union: Lean, lemmas/Bits.lean sum_two_pow_testBit.
 """
 import os
 
@@ -424,7 +425,7 @@ def _members(path):
     n = Int('n_indexes')
     pos = Function('index.at', I, I)
     k, t = Ints('k t')
-    # contract of integers.indexes (unit bitsets.integers.indexes); MemberBits._indexes = indexes_optimized is ASSUMED to agree with it
+    # contract of MemberBits._indexes = integers.indexes_optimized (unit bitsets.integers.indexes_optimized: the postcondition of integers.indexes)
     path.assume(And(n >= 0, ForAll([t], Implies(And(0 <= t, t < n), And(0 <= pos(t), bit(x, pos(t)))), patterns=[pos(t)])))
     label = Function('member.at', I, I)
     mem = ObjV('Members', {'__getitem__': FuncV('tuple.__getitem__', lambda p, a, kw: _label(p, a[-1], W, label))}, name='_members')
@@ -467,7 +468,8 @@ def _label(p, i, W, label):
 
 if BASES:
     register(Unit('bitsets.MemberBits.members', BASES, 'MemberBits.members', _unit(_members),
-                  assumptions=['MemberBits._indexes = integers.indexes_optimized (via bin()) yields the same positions as integers.indexes (ASSUMED: string-based)',
+                  assumptions=['MemberBits._indexes = integers.indexes_optimized yields the positions of the set bits (unit bitsets.integers.indexes_optimized, '
+                               'the same postcondition as integers.indexes; linkage-checked)',
                                'builtin map / tuple / frozenset'],
                   linkage=[(LINK + 'bases.MemberBits.members', None)]))
 
@@ -709,14 +711,18 @@ def _atom(t):
 
 def _keys(which):
     def body(path):
+        from contracts.bitsets_bin import Texts            # the text model of bin() / str.count (DESIGN 11.22); imported here: bitsets_bin imports this module
+        from pyvc import bintext
         W, x, atoms, meths = _class_env(path)
-        pc = Function('popcount', I, I)
+        T = bintext.Z3B()
+        pc = T.card                                        # the number of members (BitsBin.card; `card` of contracts/bitsets_powerset.py)
         rv = Function('reinverted', I, I, I)
-        cnt = ObjV('str', {'count': FuncV('str.count', lambda p, a, kw: IntV(pc(x)) if (len(a) >= 1 and a[-1].value == '1') else NONE)}, name='bin(self)')
         meths[('Bits', '_len')] = _prop(lambda p, a, kw: IntV(W))
         meths[('Bits', '_reinverted')] = FuncV('_reinverted', lambda p, a, kw: IntV(rv(a[0].t, a[1].t)))
         meths[('Bits', '_int')] = _prop(lambda p, a, kw: IntV(a[0].t))
-        g = dict(lib.builtins(), bin=FuncV('bin', lambda p, a, kw: cnt if a[0].t.eq(x) else NONE))
+        # bin(self).count('1') is no longer answered by the contract: bin() gives the text term, count('1') the number of its '1' characters, and
+        # the lemma instance L_bin_count (lemmas/BitsBin.lean: count_one_bin; premise self >= 0 obliged) says that this is card(self)
+        g = dict(lib.builtins(), bin=Texts(path, T).bin_fn())
 
         def finish(path, env, outcome):
             r = outcome[1] if outcome[0] == 'return' else None
@@ -730,6 +736,11 @@ def _keys(which):
     return body
 
 
+def _keys_axioms():
+    from pyvc import bintext
+    return bits.axioms() + bintext.Z3B().axioms()
+
+
 if BASES:
     register(Unit('bitsets.MemberBits.frommembers', BASES, 'MemberBits.frommembers', _unit(_frommembers),
                   assumptions=['requires every member to be a label of the class (else KeyError); builtin set = the distinct elements; '
@@ -739,8 +750,11 @@ if BASES:
                   assumptions=['itertools.compress(data, selectors) = the data items whose selector is true, up to the shorter length; SUM-ATOMS (lemmas/Bits.lean)'],
                   linkage=[(LINK + 'bases.MemberBits.frombools.__func__', None)]))
     for _w in ('shortlex', 'longlex'):
-        register(Unit('bitsets.MemberBits.' + _w, BASES, 'MemberBits.' + _w, _unit(_keys(_w)),
-                      assumptions=["bin(x).count('1') = the number of set bits (string level, ASSUMED); _reinverted = integers.reinverted (unit bitsets.integers.reinverted)"],
+        register(Unit('bitsets.MemberBits.' + _w, BASES, 'MemberBits.' + _w, _unit(_keys(_w), _keys_axioms),
+                      assumptions=["bin(x).count('1') = card(x), the number of set bits: lemma instance L_bin_count (Lean, lemmas/BitsBin.lean: count_one_bin); "
+                                   "LIBRARY (validated by pyvc/bintext.py selftest / selftest_lean, never proved): CPython's bin / str.count compute the List Char "
+                                   "definitions of lemmas/BitsBin.lean",
+                                   '_reinverted = integers.reinverted (unit bitsets.integers.reinverted)'],
                       linkage=[(LINK + 'bases.MemberBits.' + _w, None)]))
 
 
